@@ -120,14 +120,17 @@ Section FindProofs.
     assert (Rv : Reach v) by (apply (i_stack _ _ I); left; reflexivity).
     assert (Nv : ~ In v inputs) by (intros H; apply Ev; apply (i_inputs _ _ I); exact H).
     (* the inits component is the same in the three remaining branches *)
-    assert (Hini : forall w, In w (if isinit v then v :: f_inits s else f_inits s) <->
+    assert (Hsa : forall w l, In w (set_add v l) <-> w = v \/ In w l).
+    { intros w l. unfold set_add. destruct (mem v l) eqn:Em; simpl; [|intuition congruence].
+      apply mem_In in Em. intuition (subst; auto). }
+    assert (Hini : forall w, In w (if isinit v then set_add v (f_inits s) else f_inits s) <->
                              In w ini0 \/ (In w (v :: f_vals s) /\ ~ In w inputs /\ isinit w = true)).
-    { intros w. destruct (isinit v) eqn:Ei; simpl; rewrite (i_inits _ _ I);
+    { intros w. destruct (isinit v) eqn:Ei; [rewrite Hsa|]; simpl; rewrite (i_inits _ _ I);
         intuition (subst; auto; congruence). }
-    assert (Hndi : NoDup (if isinit v then v :: f_inits s else f_inits s)).
-    { destruct (isinit v); [|apply (i_nodup_i _ _ I)]. constructor; [|apply (i_nodup_i _ _ I)].
-      rewrite (i_inits _ _ I). intros [H|[H _]]; [|contradiction].
-      apply Nv. apply (i_ini0 _ _ I). exact H. }
+    assert (Hndi : NoDup (if isinit v then set_add v (f_inits s) else f_inits s)).
+    { destruct (isinit v); [|apply (i_nodup_i _ _ I)]. unfold set_add.
+      destruct (mem v (f_inits s)) eqn:Em; [apply (i_nodup_i _ _ I)|].
+      constructor; [apply mem_false; exact Em | apply (i_nodup_i _ _ I)]. }
     destruct I as [I1 I2 I3 I4 I5 I6 I7 I8 I9 I10 I11].
     destruct (prod v) as [n|] eqn:Ep.
     - destruct (mem n (f_nodes s)) eqn:En; simpl.
